@@ -478,6 +478,8 @@ def check_program(case, srv, stats):
     resp = srv.ask({"k": "expr", "type": case["type"], "order": case["order"], "vars": case["vars"], "prog": case["prog"], "prior": bool(case.get("prior"))})
     if "panic" in resp or "died" in resp or "err" in resp:
         raise Violation("%s: the library failed: %s" % (desc, resp))
+    if resp.get("helpers"):
+        raise Violation("%s: the accessor functions disagree with GetDerivative/GetHessian: %s" % (desc, resp["helpers"]))
     got_v = unhex(resp["v"])
     got_g = [unhex(x) for x in resp["g"]]
     got_h = [unhex(x) for x in resp["h"]]
